@@ -17,6 +17,7 @@ import (
 	"verif/enum"
 	"verif/ref"
 	"verif/run"
+	"verif/shim/vsync"
 	"verif/spec"
 	"verif/zx"
 )
@@ -27,6 +28,7 @@ type FaultCase struct {
 	Op    string `json:"op"` // writeto-err | writeto-short | persist | merge
 	Shard int    `json:"shard"`
 	Of    int    `json:"of"`
+	Perm  int    `json:"perm,omitempty"` // instrumented flavour: order of the sections (vsync.MapPerm)
 }
 
 // faultInputs: build inputs 0..3, merge inputs 4..7 (each a list of batches + drops).
@@ -180,6 +182,8 @@ func checkComplete(path string, exp *ref.Content, mode uint32) string {
 func runC17(ci interface{}, a *run.Acc) {
 	c := *ci.(*FaultCase)
 	in := faultInputs()[c.Input]
+	vsync.MapPerm = c.Perm
+	defer func() { vsync.MapPerm = 0 }()
 	env, err := newFaultEnv(in)
 	defer env.done()
 	if err != nil {
@@ -336,22 +340,29 @@ func init() {
 	run.Register(&run.Def{
 		ID:          "C17",
 		Level:       "fault_enumeration",
-		Rule:        "deviation enumeration on the real write paths: for each of 8 inputs (small, multi-field with doc values, synonyms, empty batch; merges of 2-3 segments with and without deletions, synonyms, overlapping field lists): WriteTo(w) with w failing at EVERY byte offset 0..len-1, once as (short count, error) and once as an all-or-nothing writer returning (0, error) for the write that would cross the offset; Persist(path) and Merge(...,path) under RLIMIT_FSIZE = N for EVERY N in [0, size) (a real torn write at byte N followed by EFBIG; DefaultFileMergerBufferSize = 16 so that flush boundaries are dense); plus the fault-free run of each. Oracle: every fault yields a non-nil error and, for the path-based operations, no file at the path; the fault-free run yields identical Persist/WriteTo bytes, a footer with count/chunk mode/version 16/CRC-32 (independent decoder), re-opens to the reference content, and Merge's maps and size are right. Non-trivial = one (input, operation, fault offset) whose fault was actually triggered.",
+		Rule:        "deviation enumeration on the real write paths: for each of 8 inputs (small, multi-field with doc values, synonyms, empty batch; merges of 2-3 segments with and without deletions, synonyms, overlapping field lists): WriteTo(w) with w failing at EVERY byte offset 0..len-1, once as (short count, error) and once as an all-or-nothing writer returning (0, error) for the write that would cross the offset; Persist(path) and Merge(...,path) under RLIMIT_FSIZE = N for EVERY N in [0, size) (a real torn write at byte N followed by EFBIG; DefaultFileMergerBufferSize = 16 so that flush boundaries are dense); plus the fault-free run of each; the whole enumeration is repeated in the instrumented flavour under both orders in which the two sections can be laid out (in the plain flavour the order is whatever the Go runtime picks). Oracle: every fault yields a non-nil error and, for the path-based operations, no file at the path; the fault-free run yields identical Persist/WriteTo bytes, a footer with count/chunk mode/version 16/CRC-32 (independent decoder), re-opens to the reference content, and Merge's maps and size are right. Non-trivial = one (input, operation, fault offset) whose fault was actually triggered.",
 		Assumptions: []string{"Sync and Close failures of the output file cannot be provoked through the OS interface used here and are not injected in this tier", "the size of an output depends on the order in which sections are laid out (Go map order changes varint lengths of offsets): a run whose output is shorter than the fault offset is accepted iff it is a complete correct output", "output paths do not exist before the call"},
 		Bounds:      map[string]string{"quick": "8 inputs, every byte offset of every output (2 legal WriteTo failure modes; Persist for the 4 build inputs; Merge for the 4 merge inputs)", "thorough": "same: the fault space is enumerated completely in both tiers"},
+		Flavours:    func(string) []string { return []string{"plain", "inst"} },
 		New:         func() interface{} { return &FaultCase{} },
 		Gen: func(tier string, emit func(interface{})) {
 			const of = 8
-			for i := range faultInputs() {
-				for _, op := range []string{"writeto-err", "writeto-short", "persist", "merge"} {
-					if i >= 4 && op != "merge" {
-						continue
-					}
-					if i < 4 && op == "merge" {
-						continue
-					}
-					for s := 0; s < of; s++ {
-						emit(FaultCase{Input: i, Op: op, Shard: s, Of: of})
+			perms := 1
+			if run.Flavour == "inst" {
+				perms = 2 // both orders of the two sections
+			}
+			for perm := 0; perm < perms; perm++ {
+				for i := range faultInputs() {
+					for _, op := range []string{"writeto-err", "writeto-short", "persist", "merge"} {
+						if i >= 4 && op != "merge" {
+							continue
+						}
+						if i < 4 && op == "merge" {
+							continue
+						}
+						for s := 0; s < of; s++ {
+							emit(FaultCase{Input: i, Op: op, Shard: s, Of: of, Perm: perm})
+						}
 					}
 				}
 			}
